@@ -133,3 +133,18 @@ def boundary_bits(prim):
         if v not in out:
             out.append(v)
     return out
+
+
+def node_bits(node):
+    """boundary bit patterns for a scalar leaf; enum leaves get every valid value first, then invalid ones"""
+    b = boundary_bits(node.prim)
+    if getattr(node, "rep", None) == "enum":
+        from ..model.layout import Resolver
+        size = node.size
+        valid = []
+        for v in node.src.values:
+            val = Resolver.parse_value(str(v[1]), node.prim) & ((1 << (8 * size)) - 1)
+            if val not in valid:
+                valid.append(val)
+        return valid + [x for x in b if x not in valid]
+    return b
